@@ -704,37 +704,67 @@ Proof.
   destruct Hp as [Hp|Hp]; rewrite Hp; auto. exists v. split; auto. apply to4_of_len4; auto.
 Qed.
 
+Lemma ipcp_learn_assigned : forall os c, ic_assigned (ipcp_learn c os) = ic_assigned c.
+Proof.
+  unfold ipcp_learn. induction os as [|o os IH]; intros c; simpl; [reflexivity|].
+  rewrite IH. unfold ipcp_learn_opt. split_ifs; reflexivity.
+Qed.
+
+Lemma sess_fsm_only_inv : forall s c' r,
+  sess_inv s -> ic_assigned c' = ic_assigned (s_cfg s) -> sess_inv (fst (sess_fsm_only repaired s c' r)).
+Proof.
+  intros s c' [a st'] (v & Hv & Hl & Hz & Ha & Hp) Hc. unfold sess_fsm_only.
+  destruct (fold_left (on_act repaired (s_peer s)) a (s_addr s, s_open s)) as [ad op] eqn:F.
+  simpl. exists v. simpl. rewrite Hc. repeat split; auto.
+  pose proof (on_act_fold_inv v (s_peer s) a (s_addr s) (s_open s) Hl Hp Ha) as H. rewrite F in H. exact H.
+Qed.
+
 Lemma sess_step_inv : forall s e, sess_inv s -> sess_inv (fst (sess_step repaired s e)).
 Proof.
-  intros s e Hinv. pose proof (usable_assigned_of_inv s Hinv) as Hu.
+  intros s e Hinv. destruct e as [id wire| |w|w|w]; cbn [sess_step];
+    try (apply sess_fsm_only_inv; [exact Hinv|]; try reflexivity; apply ipcp_learn_assigned).
+  pose proof (usable_assigned_of_inv s Hinv) as Hu.
   destruct Hinv as (v & Hv & Hl & Hz & Ha & Hp).
   assert (Hto : to4o (ic_assigned (s_cfg s)) = Some v).
   { rewrite Hv. simpl. apply to4_of_len4; auto. }
-  destruct e as [id wire|]; cbn [sess_step].
-  - unfold ipcp_input.
-    destruct (parse_wire wire) as [opts| | |] eqn:P;
-      try solve [simpl; exists v; simpl; repeat split; auto].
-    destruct (ipcp_req (s_cfg s) (s_peer s) opts) as [r p'] eqn:R.
-    destruct (rcr_event (s_fsm s) id r) as [a st'] eqn:E.
-    assert (Hp' : pp_addr p' = None \/ pp_addr p' = Some v).
-    { pose proof (ipcp_fold_peer_addr (s_cfg s) opts res0 (s_peer s)) as H.
-      unfold ipcp_req in R. rewrite R in H. simpl in H.
-      destruct H as [H|(o & Ho & K & T & H)]; [rewrite H; exact Hp|].
-      right. rewrite H. f_equal.
-      apply ipcp_kind_ack in K. destruct K as (Hlen & [(_ & _ & He)|[X|X]]); try (rewrite X in T; discriminate).
-      specialize (He Hu). rewrite Hto in He. simpl in He. apply ip_equal_len4 in He; auto. }
-    destruct (fold_left (on_act repaired p') a (s_addr s, s_open s)) as [ad op] eqn:F.
-    simpl. exists v. simpl. repeat split; auto.
-    pose proof (on_act_fold_inv v p' a (s_addr s) (s_open s) Hl Hp' Ha) as H. rewrite F in H. exact H.
-  - destruct (rca_event (s_fsm s) 0) as [a st'] eqn:E.
-    destruct (fold_left (on_act repaired (s_peer s)) a (s_addr s, s_open s)) as [ad op] eqn:F.
-    simpl. exists v. simpl. repeat split; auto.
-    pose proof (on_act_fold_inv v (s_peer s) a (s_addr s) (s_open s) Hl Hp Ha) as H. rewrite F in H. exact H.
+  unfold ipcp_input.
+  destruct (parse_wire wire) as [opts| | |] eqn:P;
+    try solve [simpl; exists v; simpl; repeat split; auto].
+  destruct (ipcp_req (s_cfg s) (s_peer s) opts) as [r p'] eqn:R.
+  destruct (rcr_event (s_fsm s) id r) as [a st'] eqn:E.
+  assert (Hp' : pp_addr p' = None \/ pp_addr p' = Some v).
+  { pose proof (ipcp_fold_peer_addr (s_cfg s) opts res0 (s_peer s)) as H.
+    unfold ipcp_req in R. rewrite R in H. simpl in H.
+    destruct H as [H|(o & Ho & K & T & H)]; [rewrite H; exact Hp|].
+    right. rewrite H. f_equal.
+    apply ipcp_kind_ack in K. destruct K as (Hlen & [(_ & _ & He)|[X|X]]); try (rewrite X in T; discriminate).
+    specialize (He Hu). rewrite Hto in He. simpl in He. apply ip_equal_len4 in He; auto. }
+  destruct (fold_left (on_act repaired p') a (s_addr s, s_open s)) as [ad op] eqn:F.
+  simpl. exists v. simpl. repeat split; auto.
+  pose proof (on_act_fold_inv v p' a (s_addr s) (s_open s) Hl Hp' Ha) as H. rewrite F in H. exact H.
 Qed.
 
 Lemma sess_run_inv : forall es s, sess_inv s -> sess_inv (sess_run repaired s es).
 Proof.
   induction es as [|e es IH]; intros s H; simpl; auto. apply IH. apply sess_step_inv. exact H.
+Qed.
+
+(* no packet of the subscriber changes the assigned address (any variant) *)
+Lemma sess_step_assigned : forall fl s e,
+  ic_assigned (s_cfg (fst (sess_step fl s e))) = ic_assigned (s_cfg s).
+Proof.
+  intros fl s e.
+  assert (F : forall c' r, ic_assigned c' = ic_assigned (s_cfg s) ->
+              ic_assigned (s_cfg (fst (sess_fsm_only fl s c' r))) = ic_assigned (s_cfg s)).
+  { intros c' [a st'] Hc. unfold sess_fsm_only. destruct (fold_left _ _ _). simpl. exact Hc. }
+  destruct e as [id wire| |w|w|w]; cbn [sess_step]; try (apply F; try reflexivity; apply ipcp_learn_assigned).
+  unfold ipcp_input. destruct (parse_wire wire); simpl; auto.
+  destruct (ipcp_req _ _ _). destruct (rcr_event _ _ _). destruct (fold_left _ _ _). reflexivity.
+Qed.
+
+Lemma sess_run_assigned : forall fl es s, ic_assigned (s_cfg (sess_run fl s es)) = ic_assigned (s_cfg s).
+Proof.
+  intros fl es. induction es as [|e es IH]; intros s; simpl; auto. rewrite IH. apply sess_step_assigned.
 Qed.
 
 (* the session address, read as an IPv4 address, is the assigned one at every point of every history *)
@@ -747,11 +777,7 @@ Proof.
   intros aaa es s.
   pose proof (sess_run_inv es _ (sess_start_inv aaa)) as H. fold s in H.
   split; [apply usable_assigned_of_inv; exact H|]. split.
-  - unfold s. generalize (sess_start repaired aaa) as s0. clear. induction es as [|e es IH]; intros s0; simpl; auto.
-    rewrite IH. destruct e as [id wire|]; simpl.
-    + unfold ipcp_input. destruct (parse_wire wire); simpl; auto.
-      destruct (ipcp_req _ _ _). destruct (rcr_event _ _ _). destruct (fold_left _ _ _). reflexivity.
-    + destruct (rca_event _ _). destruct (fold_left _ _ _). reflexivity.
+  - apply sess_run_assigned.
   - destruct H as (v & Hv & _ & _ & (a & Ha & Hto) & _). rewrite Ha, Hv. simpl. exact Hto.
 Qed.
 
